@@ -149,6 +149,36 @@ theorem nondelegable_qualifykey_slots (E : Env) (args : List Arg)
        · split_ifs at h <;> simp at h
        · subst h; simp_all [arg0, arg3, capOf])
 
+/-! ### the buffer contract covers every C function that takes an untyped buffer -/
+
+/-- the C functions of the three headers with a `void*` parameter that is a data buffer -/
+def bufferFns : List String := [
+  "embedded_pairing_wkdibe_params_marshal", "embedded_pairing_wkdibe_secretkey_marshal", "embedded_pairing_wkdibe_ciphertext_marshal",
+  "embedded_pairing_wkdibe_signature_marshal", "embedded_pairing_wkdibe_masterkey_marshal", "embedded_pairing_wkdibe_ciphertext_unmarshal",
+  "embedded_pairing_wkdibe_signature_unmarshal", "embedded_pairing_wkdibe_masterkey_unmarshal", "embedded_pairing_wkdibe_params_set_length",
+  "embedded_pairing_wkdibe_secretkey_set_length", "embedded_pairing_lqibe_params_marshal", "embedded_pairing_lqibe_id_marshal",
+  "embedded_pairing_lqibe_masterkey_marshal", "embedded_pairing_lqibe_secretkey_marshal", "embedded_pairing_lqibe_ciphertext_marshal",
+  "embedded_pairing_lqibe_params_unmarshal", "embedded_pairing_lqibe_id_unmarshal", "embedded_pairing_lqibe_masterkey_unmarshal",
+  "embedded_pairing_lqibe_secretkey_unmarshal", "embedded_pairing_lqibe_ciphertext_unmarshal", "embedded_pairing_lqibe_encrypt",
+  "embedded_pairing_lqibe_decrypt", "embedded_pairing_bls12_381_g1_marshal", "embedded_pairing_bls12_381_g1_unmarshal",
+  "embedded_pairing_bls12_381_g2_marshal", "embedded_pairing_bls12_381_g2_unmarshal", "embedded_pairing_bls12_381_gt_marshal",
+  "embedded_pairing_bls12_381_gt_unmarshal", "embedded_pairing_bls12_381_zp_from_hash", "embedded_pairing_bls12_381_g1affine_from_hash",
+  "embedded_pairing_bls12_381_g2affine_from_hash"]
+
+/-- … each of them has an entry in the contract `bufNeeds` (whatever the environment and the arguments) -/
+theorem bufNeeds_covers (f : String) (hf : f ∈ bufferFns) (E : Env) (a : List Arg) : (bufNeeds E f a).length = 1 := by
+  simp only [bufferFns, List.mem_cons, List.not_mem_nil, or_false] at hf
+  rcases hf with rfl | rfl | rfl | rfl | rfl | rfl | rfl | rfl | rfl | rfl | rfl | rfl | rfl | rfl | rfl | rfl | rfl | rfl | rfl | rfl |
+    rfl | rfl | rfl | rfl | rfl | rfl | rfl | rfl | rfl | rfl | rfl <;> simp [bufNeeds]
+
+/-- … and they are ALL the C functions with a `void*` parameter that the Go layer calls, except the two slot-array
+readers, whose buffer is handled by `params_unmarshal_slots` / `secretkey_unmarshal_slots` (the whole slice that
+`set_length` accepted).  A new call of a buffer-taking C function from Go breaks this until the contract is extended. -/
+theorem bufferFns_complete :
+    (goCalls.filter (fun c => (cProtos.any (fun p => p.1 == c.callee && p.2.2.contains "void*")))).all (fun c =>
+      bufferFns.contains c.callee || c.callee == "embedded_pairing_wkdibe_params_unmarshal"
+        || c.callee == "embedded_pairing_wkdibe_secretkey_unmarshal") = true := by decide +kernel
+
 /-! ### the three byte-level helpers of lang/go/internal (hand models; the source is pinned by digest: `helpers_pinned`)
 
 `BigIntToC(result, size, scalar)` writes the big-endian bytes of `scalar.Bytes()` in reverse, then zero-fills:
